@@ -76,7 +76,9 @@ def gen_structure(seed, tier, i):
         return structures.gen_many(s, 10, 16)
     if mode < 0.35:
         return structures.gen_broom(s)
-    if mode < 0.352:
+    if mode < 0.3515:
+        return structures.gen_far_knot(s)
+    if mode < 0.3535:
         # ribosomal-RNA size: about 4 000 positions and 300-450 stems (the 6EK0 test input has 3 929 and 410)
         return structures.gen_large(s, 300, 450)
     if mode < 0.38:
@@ -133,7 +135,7 @@ def phase_a(seed, tier, i, st):
         steps.append(dict(obj, via="argument", backend=cfg.choice(["sim-api", "cbc-wrapper"]),
                           fault={"kind": "ok", "tie": cfg.randrange(1 << 12)}))
         steps.append(dict(obj, via="property", backend="sim-api", fault={"kind": "ok", "tie": cfg.randrange(1 << 12)}))
-    if knotted and i % 3 == 2 and len(st["triples"]) <= 400:
+    if knotted and i % 3 == 2 and len(st["triples"]) <= 400 and not st["family"].startswith("farknot"):
         # derived objects: what the library builds from this structure has a notation of its own to get right
         stem_list = oracles.stems(pairs)
         hows = ["from_fcfs"]
